@@ -39,7 +39,7 @@ func newPatchFamily(w *World, pkg *ssa.Package, tag string) *patchFamily {
 	pf.iface = iface
 	var m *types.Func
 	for i := 0; i < iface.NumMethods(); i++ {
-		if iface.Method(i).Name() == "patch" {
+		if methodIs(iface.Method(i), "patch") {
 			m = iface.Method(i)
 		}
 	}
@@ -135,7 +135,7 @@ func (pf *patchFamily) familyCalls(fn *ssa.Function) []patchCall {
 				var args []ssa.Value
 				callee := ""
 				if com.IsInvoke() {
-					if com.Method.Name() != "patch" || com.Method.Pkg() != pf.pkg.Pkg {
+					if !methodIs(com.Method, "patch") || com.Method.Pkg() != pf.pkg.Pkg {
 						continue
 					}
 					args = com.Args
@@ -217,7 +217,7 @@ func isRestOfNext(arg ssa.Value, own *ssa.Parameter) bool {
 		return false
 	}
 	fn := staticCallee(c)
-	if fn == nil || fn.Name() != "next" || fn.Signature.Recv() == nil {
+	if fn == nil || fn.Signature.Recv() == nil || !(fn.Name() == "next" || nextShaped(fn)) {
 		return false
 	}
 	if ex.Index != fn.Signature.Results().Len()-1 {
@@ -312,7 +312,7 @@ func driverStrategy(pf *patchFamily, arg ssa.Value, dparam *ssa.Parameter) (bool
 	if pf.tag == "lib" {
 		c, ok := arg.(*ssa.Call)
 		if ok {
-			if fn := staticCallee(c); fn != nil && fn.Name() == "getPatchStrategy" && len(c.Call.Args) == 1 {
+			if fn := staticCallee(c); fn != nil && pf.w.fnIs(fn, "getPatchStrategy") && len(c.Call.Args) == 1 {
 				root, sel := accessPath(c.Call.Args[0])
 				if root == ssa.Value(dparam) && selString(sel) == "[].Path" {
 					return true, "strategy is getPatchStrategy() of the hunk's own path"
@@ -415,6 +415,10 @@ func rulePatchResult(w *World, r *Report, pf *patchFamily, scope func(*ssa.Funct
 				}
 			}
 			if errEx == nil && nodeEx == nil {
+				if why, ok := libPatchExempt[pc.key]; ok && pf.tag == "lib" {
+					r.Ok(rule, pc.key, pos, "exempt by name: "+why)
+					continue
+				}
 				r.Bad(rule, pc.key, pos, "both the patched node and the error of the nested patch are discarded: a failure inside is reported as success and the result is lost")
 				continue
 			}
@@ -465,4 +469,85 @@ func rulePatchResult(w *World, r *Report, pf *patchFamily, scope func(*ssa.Funct
 			}
 		}
 	}
+}
+
+// ruleNotIgnored — a hunk is never silently ignored: a patch function that
+// reports success and hands back the very node it was given (not a new
+// value, not the outcome of a nested patch) must have written into that node
+// on the way (element store, map update, delete). Returning the untouched
+// input means the hunk had no effect although no error is reported.
+func ruleNotIgnored(w *World, r *Report, pf *patchFamily, scope func(*ssa.Function) bool) {
+	rule := "R-NOTIGNORED"
+	if pf.tag == "lib" {
+		rule += "(lib)"
+	}
+	for _, fn := range pf.functions() {
+		if scope != nil && !scope(fn) {
+			continue
+		}
+		own := fn.Params[0]
+		isOwn := func(v ssa.Value) bool { return strip(v) == ssa.Value(own) }
+		// writes into the node
+		var writes []*ssa.BasicBlock
+		allInstrs(fn, func(in ssa.Instruction) {
+			switch x := in.(type) {
+			case *ssa.Store:
+				if ia, ok := x.Addr.(*ssa.IndexAddr); ok && isOwn(ia.X) {
+					writes = append(writes, x.Block())
+				}
+			case *ssa.MapUpdate:
+				if isOwn(x.Map) {
+					writes = append(writes, x.Block())
+				}
+			case ssa.CallInstruction:
+				if b, ok := x.Common().Value.(*ssa.Builtin); ok && b.Name() == "delete" && isOwn(x.Common().Args[0]) {
+					writes = append(writes, x.Block())
+				}
+			}
+		})
+		k := 0
+		for _, ret := range returnsOf(fn) {
+			if !isNilErrReturn(ret) || !isOwn(ret.Results[0]) {
+				continue
+			}
+			k++
+			r.Fn(fnName(fn))
+			// every path to this return passes a write: the union of the write
+			// blocks cuts the return off from the entry
+			cut := EdgeSet{}
+			for _, wb := range writes {
+				for _, p := range wb.Preds {
+					for j, sc := range p.Succs {
+						if sc == wb {
+							cut[Edge{p, j}] = true
+						}
+					}
+				}
+			}
+			written := false
+			for _, wb := range writes {
+				if wb == ret.Block() {
+					written = true
+				}
+			}
+			if !written && len(cut) > 0 && cutsOff(fn, cut, ret.Block()) {
+				written = true
+			}
+			if why, ok := libPatchExempt[fmt.Sprintf("%s:returns-input#%d", fnName(fn), k)]; ok && pf.tag == "lib" {
+				r.Ok(rule, fmt.Sprintf("%s:returns-input#%d", fnName(fn), k), w.Pos(ret.Pos()), "exempt by name: "+why)
+				continue
+			}
+			r.Check(written, rule, fmt.Sprintf("%s:returns-input#%d", fnName(fn), k), w.Pos(ret.Pos()),
+				"the node handed back on success was written into on every path to this return",
+				"success is reported and the very node that was passed in is handed back without having been written into on some path: the hunk is silently ignored")
+		}
+	}
+}
+
+// libPatchExempt: v1 constructs that break a patch rule without breaking what
+// C17 promises (the round trip of v1's own diffs; C17 does not promise that
+// bad patches are rejected). One line of reason each.
+var libPatchExempt = map[string]string{
+	"lib.(jsonSet).patch→invoke.patch":      "the keyed member of a v1 set is always a jsonObject (a map): its patch mutates it in place and returns the same map, so dropping the result loses nothing on v1's own diffs; the dropped error only matters for foreign patches, which C17 does not quantify over (the v2 twin is known finding K3 of C08)",
+	"lib.(jsonSet).patch:returns-input#1": "same site: the member object was patched in place by the nested call",
 }
